@@ -35,10 +35,12 @@ fn build_probes() -> Result<Vec<PathBuf>, String> {
     let probe = harness_dir().join("probe");
     let base = std::env::var("VERIF_TARGET_DIR").map(PathBuf::from).unwrap_or_else(|_| harness_dir().parent().unwrap().join("target"));
     let over = std::env::var("VERIF_REPO_OVERRIDE").ok();
+    // the release leg of the driver builds the probes without debug assertions and overflow checks
+    let noassert = std::env::var("VERIF_PROFILE").map(|p| p == "release").unwrap_or(false);
     let mut children = Vec::new();
     for (name, feats) in CONFIGS.iter() {
         let mut c = Command::new("cargo");
-        c.current_dir(&probe).arg("build").arg("--release").arg("--no-default-features").arg("--features").arg(feats).arg("--target-dir").arg(base.join(format!("cfg-{}", name)));
+        c.current_dir(&probe).arg("build").arg(if noassert { "--profile=noassert" } else { "--release" }).arg("--no-default-features").arg("--features").arg(feats).arg("--target-dir").arg(base.join(format!("cfg-{}", name)));
         if let Some(r) = &over { c.arg("--config").arg(format!("paths=[\"{r}/minicbor\",\"{r}/minicbor-derive\",\"{r}/minicbor-serde\"]", r = r)); }
         c.env("CARGO_NET_OFFLINE", "true").stdout(std::process::Stdio::null()).stderr(std::process::Stdio::piped());
         children.push((name, c.spawn().map_err(|e| e.to_string())?));
@@ -47,7 +49,7 @@ fn build_probes() -> Result<Vec<PathBuf>, String> {
     for (name, ch) in children {
         let o = ch.wait_with_output().map_err(|e| e.to_string())?;
         if !o.status.success() { return Err(format!("probe build for configuration `{}` failed:\n{}", name, String::from_utf8_lossy(&o.stderr).lines().rev().take(30).collect::<Vec<_>>().into_iter().rev().collect::<Vec<_>>().join("\n"))) }
-        out.push(base.join(format!("cfg-{}", name)).join("release").join("gcfg_probe"));
+        out.push(base.join(format!("cfg-{}", name)).join(if noassert { "noassert" } else { "release" }).join("gcfg_probe"));
     }
     Ok(out)
 }
@@ -281,12 +283,37 @@ fn floats_everywhere(i: u64, st: &mut Stats) -> CaseResult {
     Ok(())
 }
 
+/// C01 in every feature configuration: the value-driven round trips of the probe (types that exist without `alloc`; the
+/// values are generated from the corpus entry read as a tape) must succeed in each of the six builds.
+fn roundtrips_everywhere(i: u64, st: &mut Stats) -> CaseResult {
+    let w = match world() { Ok(w) => w, Err(e) => return Err(Fail::new("infrastructure", e.clone())) };
+    let e = &w.entries[i as usize];
+    let mut seen = 0;
+    for c in 0 .. 6 {
+        for (op, v) in w.verdicts[i as usize][c].iter().filter(|(op, _)| op.starts_with("RT:")) {
+            st.eval();
+            seen += 1;
+            if !v.starts_with('o') {
+                let stage = match v.split(|c| c == '#' || c == '@').next().unwrap_or("") { "eenc" => "encoding failed", "elen" => "CborLen differs from the bytes written", "edec" => "decoding its own encoding failed", "epos" => "decoding stopped before the end of the encoding", "eneq" => "the decoded value differs", _ => "failed" };
+                return Err(Fail::new(format!("{}/{}", op, if has_alloc(c) { "alloc" } else { "no-alloc" }), format!("configuration `{}`: round trip `{}` of the value generated from tape {}: {} ({}); the other configurations: {}", CONFIGS[c].0, op, hex(&e.bytes[.. e.bytes.len().min(40)]), stage, v,
+                    (0 .. 6).map(|x| format!("{}={}", CONFIGS[x].0, w.verdicts[i as usize][x].get(op).cloned().unwrap_or_default())).collect::<Vec<_>>().join(" "))))
+            }
+        }
+    }
+    if seen == 0 { return Err(Fail::new("infrastructure", "no RT verdicts".to_string())) }
+    if e.bytes.len() >= 4 { st.nontrivial(hash_of(&e.bytes[.. e.bytes.len().min(48)].to_vec())) }
+    st.class("roundtrip/tape");
+    Ok(())
+}
+
 fn subs() -> Vec<Sub> {
     let n = match world() { Ok(w) => w.entries.len() as u64, Err(_) => 1 };
     if let Ok(w) = world() { eprintln!("  six probe builds ran {} inputs; {} verdict lines collected", w.entries.len(), w.lines) }
     vec![
         Sub { prop: "C20", name: "transcripts", rule: "one generated corpus (all item trees <= 4 nodes over the structural leaf set, hand-picked shapes that the typed operations accept, grammar-generated and re-framed items, mutated / truncated / random inputs) through ~150 operations (accessors, iterators, skip, typed decodes incl. derived types, Size, len + encode into bounded slices, serde bridge deserialisers and a serializer into a slice) in six separately built configurations; every (operation, input) line present in >= 2 configurations must have the same verdict (value digest or error class, and position), except the documented differences decided from the input's content; evaluations = verdict lines; non-trivial = line present in >= 3 configurations and input >= 2 bytes",
               kind: Kind::Enumerate { quick: n, thorough: n, f: compare, complete_quick: false, complete_thorough: false } },
+        Sub { prop: "C01N", name: "roundtrips-in-every-configuration", rule: "20 value-driven operations per corpus entry in each of the six feature configurations: a value of a type that exists without alloc (Bound in every position and nesting, ranges, unit and empty arrays, Option, Result, tuples to arity 12, Duration, all integer widths, char, NonZero, Wrapping, Int, Tagged, ByteArray), generated from the entry's bytes read as a tape, is encoded into a stack buffer and decoded back: encoding succeeds, len == bytes written, decoding consumes exactly those bytes and yields an equal value; evaluations = verdicts judged",
+              kind: Kind::Enumerate { quick: n, thorough: n, f: roundtrips_everywhere, complete_quick: false, complete_thorough: false } },
         Sub { prop: "C12N", name: "floats-in-every-configuration", rule: "900 float items (half, single, double; boundary patterns - zeros, subnormals, extremes, infinities, quiet and signalling NaNs with payloads - and uniform bits) through Decoder::f32/f64/f16, Decode for f32/f64 and the serde bridge's f32/f64 in each of the six feature configurations, against absolute expectations: same width -> identical bits; narrower item -> the exact wider value (NaN stays NaN); wider item -> type mismatch; half item without the half feature -> type mismatch; position = end of the item; evaluations = verdicts judged",
               kind: Kind::Enumerate { quick: n, thorough: n, f: floats_everywhere, complete_quick: false, complete_thorough: false } },
         Sub { prop: "C06N", name: "noalloc-skip", rule: "well-formed corpus entries through skip() of the two no-alloc builds: position == item length, or the documented refusal and the tree does contain an indefinite array/map below a definite one",
